@@ -30,7 +30,8 @@ CONSTANTS MaxOpts,      \* bound on option items
           MaxInputs,    \* bound on input items
           Alphabet,     \* "core" | "full"
           EmitOpts,     \* VCASE lines are printed for states with <= EmitOpts option items …
-          EmitInputs,   \* … and <= EmitInputs inputs, and for any number of options with at most one input a.c / f.S
+          EmitInputs,   \* … and <= EmitInputs inputs, and for any number of options with at most one input …
+          EmitNames,    \* … out of these names
           Devs          \* names of the known deviations of the current code
 
 VARIABLES items
@@ -489,7 +490,7 @@ FiredDevs(w) == {d \in Devs : Impl(w, Devs) # Impl(w, Devs \ {d})}
 
 EmitThis == \/ NOpts(items) <= EmitOpts /\ NIns(items) <= EmitInputs
             \/ /\ NIns(items) <= 1
-               /\ \A i \in 1..Len(items) : items[i].k = "in" => items[i].name \in {"a.c", "f.S"}
+               /\ \A i \in 1..Len(items) : items[i].k = "in" => items[i].name \in EmitNames
 Emit ==
   LET w == Render(items)
       cur == Impl(w, Devs)
